@@ -25,7 +25,7 @@ fi
 if [ "$mode" != "confirm" ]; then
   git -C /repo apply "$cand/patch.diff" || { echo "DETECT: patch does not apply to /repo"; exit 3; }
   for p in $props; do
-    out=$(cd /verif && OPSIM_EVIDENCE_DIR=/tmp/seedeval-evidence ./check $p quick 2>&1); rc=$?
+    out=$(cd ${VERIF_DIR:-/verif} && OPSIM_EVIDENCE_DIR=/tmp/seedeval-evidence ./check $p quick 2>&1); rc=$?
     v=$(echo "$out" | grep -m1 "^violation:" | cut -c1-300)
     echo "DETECT $p: exit=$rc $v"
   done
